@@ -66,6 +66,17 @@ CHECKS = {
              "wrapped and aliased as the position prescribes. Held on the executions observed.",
         note="Comparison through the reference lexers; placeholders compared by kind.",
         ref="DESIGN.md section 4 C10"),
+    "C12": dict(
+        technique="differential tokenisation of aliased vs plain renderings for every Term subclass taken from the live modules",
+        text="Every Term subclass/variant (zoo + leaf classes, discovered by introspection) is placed in every defining position "
+             "(select list, RETURNING, DISTINCT ON, INSERT..SELECT; FROM/JOIN for sources), in every operand slot of every composite "
+             "class (select-list and WHERE context), and referenced from GROUP BY / ORDER BY (selected, unselected, with joins, in "
+             "subqueries, in set operations) under six dialect classes; the aliased rendering must equal the plain one plus exactly "
+             "one alias token directly after the item in defining positions and be identical in operand positions; SQLite prepares "
+             "alias references. Held on the executions observed; five criterion classes that print their alias unconditionally are "
+             "recorded known findings (pinned by the suite).",
+        note="Token comparison through the reference lexers; SQLite prepare for classes whose SQL SQLite understands.",
+        ref="DESIGN.md section 4 C12"),
     "C13": dict(
         technique="reference lexer + per-dialect clause-order tables over all call subsets; all-orders permutation comparison; sqlite3 parser",
         text="All subsets of clause-setting calls per statement kind and dialect are rendered: no lexical errors, balanced "
